@@ -1446,14 +1446,21 @@ void TopologyKernel::swap_cell_indices(CellHandle _h1, CellHandle _h2)
     // correct pointers to those cells
     if (has_face_bottom_up_incidences())
     {
+        // Determine all entries to relabel before changing any of them: a deleted
+        // (not yet garbage-collected) cell may share halffaces with a live one.
+        std::vector<HalfFaceHandle> hfs_of_h1, hfs_of_h2;
         for (const auto hfh: cells_[_h1].halffaces()) {
             if (incident_cell_per_hf_[hfh] == _h1)
-                incident_cell_per_hf_[hfh] = _h2;
+                hfs_of_h1.push_back(hfh);
         }
         for (const auto hfh: cells_[_h2].halffaces()) {
             if (incident_cell_per_hf_[hfh] == _h2)
-                incident_cell_per_hf_[hfh] = _h1;
+                hfs_of_h2.push_back(hfh);
         }
+        for (const auto hfh: hfs_of_h1)
+            incident_cell_per_hf_[hfh] = _h2;
+        for (const auto hfh: hfs_of_h2)
+            incident_cell_per_hf_[hfh] = _h1;
     }
 
     // swap vector entries
